@@ -186,6 +186,18 @@ Theorem C07_head_reregistration_refuted :
 Proof. exact head_rereg_refuted. Qed.
 Print Assumptions C07_head_reregistration_refuted.
 
+(* the stale sweep never un-indexes a fresh connection: in every reachable state, a registered connection whose last activity is
+   within the heartbeat timeout and which is the indexed connection of its client is still registered and still the answer for
+   that client after cleanupStaleConnections — whatever else is swept (e.g. a stale record authenticated as the same client
+   that was never indexed, as a tunnel-type handshake leaves behind) *)
+Theorem C07_sweep_keeps_fresh_indexed_connection :
+  forall (k : cfg) (ops : list op) (x c : N) (r : ctl),
+  let s := run Current k init ops in
+  by_client s x = Some c -> by_conn s c = Some r -> is_stale k s r = false ->
+  by_client (fst (sweep k s)) x = Some c /\ by_conn (fst (sweep k s)) c = Some r.
+Proof. intros k ops x c r. exact (sweep_keeps_fresh k _ x c r (inv_run k ops init inv_init)). Qed.
+Print Assumptions C07_sweep_keeps_fresh_indexed_connection.
+
 (* ---- cloud control (Model/RegistryCloud.v): the registry view does not depend on what cloud control answers ---- *)
 (* RemoveControlConnection / CloseConnection with the DisconnectClientIfMatch result made explicit are the plain operations,
    whatever the result (error, disconnected, skipped, no cloud control) *)
